@@ -60,6 +60,7 @@ def catalogue(etl):
         U('valuecounts', lambda a: etl.valuecounts(a, 'k'), None),
         U('valuecounter', lambda a: [tuple(etl.valuecounter(a, 'k').items())], None),
         U('nrows', lambda a: [(etl.nrows(a),)], None),
+        U('valuecount', lambda a: [tuple(etl.valuecount(a, 'k', 1))], None),
         U('lookup', lambda a: [tuple(etl.lookup(a, 'k').items())], None),
         U('lookupone', lambda a: [tuple(etl.lookupone(a, 'k').items())], None),
         U('dictlookup', lambda a: [tuple(etl.dictlookup(a, 'k').items())], None),
@@ -232,7 +233,7 @@ def run(ctx):
             ref = util.run_show(lambda: real(*fulls))
             if ref.startswith('TB') and out.startswith('TB') and ' ERR ' not in ref:
                 rt, ot = proto.parse_tables(ref)[0], proto.parse_tables(out)[0]
-                tablelike = name not in ('issorted', 'isunique', 'nrows', 'lookup', 'lookupone', 'dictlookup', 'recordlookup', 'facet',
+                tablelike = name not in ('issorted', 'isunique', 'nrows', 'valuecount', 'lookup', 'lookupone', 'dictlookup', 'recordlookup', 'facet',
                                          'valuecounter', 'flatten', 'columns', 'header', 'fieldnames', 'look', 'stats', 'aggregate(key=None,len)',
                                          'values', 'dicts', 'records', 'namedtuples', 'listoflists', 'typecounts', 'rowlengths', 'validate',
                                          'transpose', 'recast', 'pivot', 'unpackdict', 'valuecounts')
